@@ -1,21 +1,34 @@
-(** Evaluator of the C01 correspondence stream.  A case carries the service
+(** Evaluator of the C01 correspondence streams.  A case carries the service
     configuration, the lookup result with the complete rule (every step's
-    outcome is data), the request, and the observed answers of the three real
-    entry-point stacks together with the number of requests that reached the
-    counting upstream while each was served.  [check] computes
-    (i) model = observation for all three, and (ii) the property on the
-    observations: under the hypotheses of the theorems a failed / absent
-    pipeline is answered by a non-success response with zero upstream hits, a
-    completed one by exactly the positive answer.  C01 has no open finding. *)
+    outcome ON THIS REQUEST is data), the request, and the observed answers of the
+    three real entry-point stacks together with the number of requests that
+    reached the counting upstream while each was served.
+
+    [check] computes
+    (i)  [v_corr]: model and observation agree on the PROJECTION the property talks
+         about — is the answer a success (1xx/2xx status / gRPC OK), is it the
+         accepted status (decision service), did anything reach the upstream —
+         not on exact status codes, which belong to C12;
+    (ii) [v_prop]: the statement itself, built from the specification
+         ([completed_b] = [pipeline_completed]) and evaluated on the
+         implementation's observation: a request whose pipeline did not complete
+         (or that no rule applied to) is observed as a non-success with zero
+         upstream hits and is not positive; any other request is observed as a
+         non-success or as exactly the positive answer; the decision and Envoy
+         services never contact the upstream and the proxy at most once.
+         It does not refer to [serve].
+    [check_stats] (not fatal, reported in the evidence): exact agreement of status /
+    gRPC code / hit count with the model ("C12 drift") and whether [v_prop] was
+    vacuous on the case because a hypothesis of the theorems does not hold. *)
 From HV Require Export Base.Prelude Base.ErrChain C12.Model C12.Proofs C01.Model C01.Proofs.
 Local Open Scope Z_scope.
 
-(** ** observations as rendered by the Go driver *)
+(** ** observations as rendered by the Go drivers *)
 Inductive ogc := OG (g : gcode) | OGOther (s : string).
 
 Inductive oans :=
 | OHttp (status : Z) (hits : nat)
-| OAbort (hits : nat)                         (* the panic escaped the recovery middleware *)
+| OAbort (hits : nat)                         (* the connection was dropped / the handler panicked *)
 | OEnvOk (g : ogc) (hits : nat)               (* CheckResponse with OkHttpResponse *)
 | OEnvDenied (g : ogc) (status : Z) (hits : nat)
 | OEnvStatus (g : ogc) (hits : nat)           (* gRPC status error *)
@@ -25,21 +38,63 @@ Record case := {
   k_cfg : config; k_l : lookup; k_q : request;
   k_dec : oans; k_prx : oans; k_env : oans }.
 
-(** ** correspondence *)
 Definition ogc_is (g : gcode) (o : ogc) : bool :=
   match o with OG g' => gcode_eqb g g' | OGOther _ => false end.
 
+(** ** correspondence on the projection *)
+
+(** (success?, accepted status?, something reached the upstream?) *)
+Definition proj_model (c : config) (a : answer) : bool * bool * bool :=
+  match a with
+  | AHttp s h => (success_like s, s =? accepted_code c, Nat.ltb 0 h)
+  | AAbort h => (false, false, Nat.ltb 0 h)
+  | AEnvoyOk => (true, true, false)
+  | AEnvoyDenied g s => (gcode_eqb g GOk || success_like s, false, false)
+  | AEnvoyStatus g => (gcode_eqb g GOk, false, false)
+  end.
+
+Definition proj_obs (c : config) (o : oans) : option (bool * bool * bool) :=
+  match o with
+  | OHttp s h => Some (success_like s, s =? accepted_code c, Nat.ltb 0 h)
+  | OAbort h => Some (false, false, Nat.ltb 0 h)
+  | OEnvOk g h => Some (ogc_is GOk g, ogc_is GOk g, Nat.ltb 0 h)
+  | OEnvDenied g s h => Some (ogc_is GOk g || success_like s, false, Nat.ltb 0 h)
+  | OEnvStatus g h => Some (ogc_is GOk g, false, Nat.ltb 0 h)
+  | OOther _ => None
+  end.
+
+Definition triple_eqb (a b : bool * bool * bool) : bool :=
+  Bool.eqb (fst (fst a)) (fst (fst b)) && Bool.eqb (snd (fst a)) (snd (fst b)) && Bool.eqb (snd a) (snd b).
+
+Definition proj_match (en : entry) (c : config) (m : answer) (o : oans) : bool :=
+  match proj_obs c o with
+  | Some p =>
+      let q := proj_model c m in
+      (* the accepted status only matters for the decision service *)
+      match en with
+      | Decision => triple_eqb q p
+      | _ => Bool.eqb (fst (fst q)) (fst (fst p)) && Bool.eqb (snd q) (snd p)
+      end
+  | None => false
+  end.
+
+Definition corr (k : case) : bool :=
+  proj_match Decision (k_cfg k) (serve Decision (k_cfg k) (k_l k) (k_q k)) (k_dec k) &&
+  proj_match Proxy (k_cfg k) (serve Proxy (k_cfg k) (k_l k) (k_q k)) (k_prx k) &&
+  proj_match Envoy (k_cfg k) (serve Envoy (k_cfg k) (k_l k) (k_q k)) (k_env k).
+
+(** exact agreement (status, gRPC code, hit count): reported, never fatal *)
 Definition ans_match (m : answer) (o : oans) : bool :=
   match m, o with
   | AHttp s h, OHttp s' h' => (s =? s') && Nat.eqb h h'
-  | AAbort, OAbort h => Nat.eqb h 0
+  | AAbort h, OAbort h' => Nat.eqb h h'
   | AEnvoyOk, OEnvOk g h => ogc_is GOk g && Nat.eqb h 0
   | AEnvoyDenied g s, OEnvDenied g' s' h => ogc_is g g' && (s =? s') && Nat.eqb h 0
   | AEnvoyStatus g, OEnvStatus g' h => ogc_is g g' && Nat.eqb h 0
   | _, _ => false
   end.
 
-Definition corr (k : case) : bool :=
+Definition corr_exact (k : case) : bool :=
   ans_match (serve Decision (k_cfg k) (k_l k) (k_q k)) (k_dec k) &&
   ans_match (serve Proxy (k_cfg k) (k_l k) (k_q k)) (k_prx k) &&
   ans_match (serve Envoy (k_cfg k) (k_l k) (k_q k)) (k_env k).
@@ -66,25 +121,21 @@ Definition good_eh_b (h : ehstep) : bool :=
   | EhFails e => good_err_b e
   | EhPanics v => good_panic_b v
   | EhSilent => true
+  | EhAny _ => false          (* never generated *)
   end.
 Definition redirects_ok_b (r : rule) : bool :=
   forallb (fun a => good_outcome_b (a_out a)) (sc r) && forallb good_step_b (sh r) &&
   forallb good_step_b (fi r) && forallb good_eh_b (eh r).
-Definition real_handlers_b (r : rule) : bool :=
-  forallb (fun h => match e_kind h with EhSilent => false | _ => true end) (eh r).
+Definition handlers_record_b (r : rule) : bool :=
+  forallb (fun h => match e_kind h with EhSilent | EhAny _ => false | _ => true end) (eh r).
 Definition sane_b (c : config) (r : rule) : bool :=
-  overrides_not_success_b (c_respond c) && redirects_ok_b r && negb (is_nil (sc r)) && real_handlers_b r.
-
-Definition step_quiet_b (s : step) : bool :=
-  match s_if s with
-  | Some (CPanics _) => false
-  | None | Some (CVal true) => match s_out s with Panics _ => false | _ => true end
-  | _ => true
-  end.
-Definition quiet_b (r : rule) : bool := forallb step_quiet_b (sh r) && forallb step_quiet_b (fi r).
+  overrides_not_success_b (c_respond c) && redirects_ok_b r && negb (is_nil (sc r)) && handlers_record_b r.
 
 Definition applied_rule (l : lookup) : option rule :=
   match l with Matched r | Default r => Some r | NoRule => None end.
+
+Definition ohits (o : oans) : nat :=
+  match o with OHttp _ h | OAbort h | OEnvOk _ h | OEnvDenied _ _ h | OEnvStatus _ h => h | OOther _ => 0%nat end.
 
 Definition non_success_b (o : oans) : bool :=
   match o with
@@ -99,47 +150,56 @@ Definition non_success_b (o : oans) : bool :=
 Definition positive_b (en : entry) (c : config) (o : oans) : bool :=
   match en, o with
   | Decision, OHttp s _ => s =? accepted_code c
-  | Proxy, OHttp _ h => Nat.ltb 0 h
+  | Proxy, _ => Nat.ltb 0 (ohits o)
   | Envoy, OEnvOk _ _ => true
   | _, _ => false
   end.
 
-(** the positive answer in full: accepted status / the upstream's 200 after
-    exactly one forwarded request / OK; the decision and Envoy services never
-    contact the upstream *)
-Definition is_positive_answer (en : entry) (c : config) (o : oans) : bool :=
+Definition positive_shape_b (en : entry) (c : config) (o : oans) : bool :=
   match en, o with
   | Decision, OHttp s h => (s =? accepted_code c) && Nat.eqb h 0
-  | Proxy, OHttp s h => (s =? upstream_status) && Nat.eqb h 1
+  | Proxy, OHttp _ h | Proxy, OAbort h => Nat.eqb h 1
   | Envoy, OEnvOk g h => ogc_is GOk g && Nat.eqb h 0
   | _, _ => false
   end.
 
+(** "nothing reaches the upstream" unless the proxy forwards, and then once *)
+Definition hits_ok (en : entry) (o : oans) : bool :=
+  match en with Proxy => Nat.leb (ohits o) 1 | _ => Nat.eqb (ohits o) 0 end &&
+  match o with OOther _ => false | _ => true end.
+
+(** the hypotheses of the theorems for entry point [en] *)
+Definition hyps_b (en : entry) (k : case) : bool :=
+  let c := k_cfg k in
+  overrides_not_success_b (c_respond c) &&
+  match applied_rule (k_l k) with Some r => sane_b c r | None => true end &&
+  match en with Decision => success_like (accepted_code c) | _ => true end.
+
 Definition prop_entry (en : entry) (k : case) (o : oans) : bool :=
   let c := k_cfg k in
-  match applied_rule (k_l k) with
-  | None => if overrides_not_success_b (c_respond c) then non_success_b o else true
-  | Some r =>
-      if sane_b c r && success_like (accepted_code c) then
-        if succeeded_b r then
-          (* liveness, under the side conditions of C01_success_is_positive *)
-          if quiet_b r && negb (slash_rejected en r (k_q k)) &&
-             match en with
-             | Decision => valid_code (accepted_code c)
-             | Proxy => backend r
-             | Envoy => true
-             end
-          then is_positive_answer en c o
-          else true
-        else non_success_b o && negb (positive_b en c o)
-      else true
-  end.
+  hits_ok en o &&
+  if hyps_b en k then
+    match applied_rule (k_l k) with
+    | Some r =>
+        if completed_b r
+        then non_success_b o || positive_shape_b en c o                  (* no third kind of answer *)
+        else non_success_b o && negb (positive_b en c o)                 (* "in every other case" *)
+    | None => non_success_b o && negb (positive_b en c o)                (* no applicable rule *)
+    end
+  else true.
 
 Definition prop (k : case) : bool :=
   prop_entry Decision k (k_dec k) && prop_entry Proxy k (k_prx k) && prop_entry Envoy k (k_env k).
 
 Definition check (k : case) : verdict :=
   {| v_corr := corr k; v_prop := prop k; v_guards := [] |}.
+
+(** statistics: exact agreement with the model; the property predicate was not
+    vacuous on the case (all three entry points) *)
+Definition check_stats (k : case) : verdict :=
+  {| v_corr := corr_exact k;
+     v_prop := hyps_b Decision k && hyps_b Proxy k && hyps_b Envoy k;
+     v_guards := [] |}.
 
 (* constructors with short names for the generated case files *)
 Definition mkresp v a z m p n i :=
@@ -149,5 +209,5 @@ Definition au o f := {| a_out := o; a_fallback := f |}.
 Definition stp i o c := {| s_if := i; s_out := o; s_continue := c |}.
 Definition ehs i k := {| e_if := i; e_kind := k |}.
 Definition rl a h f e b s := {| sc := a; sh := h; fi := f; eh := e; backend := b; slashes_off := s |}.
-Definition rq s := {| q_encoded_slash := s |}.
+Definition rq s u := {| q_encoded_slash := s; q_upstream := u |}.
 Definition mkcase c l q d p e := {| k_cfg := c; k_l := l; k_q := q; k_dec := d; k_prx := p; k_env := e |}.
